@@ -148,3 +148,13 @@ def connect_array_of_subinterfaces(v):
     return mech.startswith("exception:connect") and mech.endswith(":AttributeError") and \
         "'list' object has no attribute" in str(d.get("exception", "")) and \
         bool(ir) and _has_dimensioned_subsignature_with_port(ir)
+
+
+@predicate
+def identifier_with_whitespace_emitted_verbatim(v):
+    """F20: user-given identifiers (signal names) are emitted verbatim after the backslash; RTLIL
+    identifiers end at whitespace, so a name containing a blank or tab yields a document that does
+    not parse."""
+    d = v.get("detail", {})
+    return v.get("mechanism") == "rtlil-does-not-parse" and d.get("whitespace_name") is True and \
+        ("bad wire name" in str(d.get("error")) or "junk" in str(d.get("error")) or "bad" in str(d.get("error")))
